@@ -148,8 +148,26 @@ def check_inv_paths(S: "FieldSubject"):
     def run(it):
         a, _av = S.element(it, "a")
         return a, it.call_func(m, [a], {})
+
+    def bounded(it, st, fr):
+        # the Euclid loop of a degree-2 element needs at most a handful of rounds; more means it does not terminate
+        from .interp import _Break, _Continue
+        n = 0
+        while True:
+            if not it.truth(it.eval(st.test, fr), st.test):
+                return None
+            n += 1
+            if n > 5:
+                raise AnalysisError("the Euclid loop does not terminate within 5 rounds on some path (degree 2 needs at most 4)")
+            try:
+                it.exec_block(st.body, fr)
+            except _Break:
+                return None
+            except _Continue:
+                continue
     try:
-        paths = alg_paths(S.world, run, AlgState(), native_fields=False, summaries={UTILS_INV: inv_rat})
+        paths = alg_paths(S.world, run, AlgState(), native_fields=False, summaries={UTILS_INV: inv_rat},
+                          while_hooks={m.qualname: bounded}, fuel=400_000)
     except AnalysisError as ex:
         return [("inv(): a·a.inv() = 1 on every path (degree 2)", False, f"not analysable: {ex}", m.where)]
     c0, c1 = S.mc
